@@ -917,6 +917,28 @@ class Executor(object):
             for r in outs:
                 yield r
 
+    def st_AnnAssign(self, st, s):
+        # `x: T = v` is `x = v` (annotations are not evaluated by the model); a bare `x: T` does nothing
+        if s.value is None:
+            yield st, None
+            return
+        for r in self.st_Assign(st, ast.Assign(targets=[s.target], value=s.value, lineno=s.lineno)):
+            yield r
+
+    def ex_NamedExpr(self, st, e):
+        # (name := value): bind, then the value
+        for st1, v in self.ev(st, e.value):
+            if isinstance(v, Raised):
+                yield st1, v
+                continue
+            for st2, o in self.assign(st1, e.target, v):
+                yield st2, (o if o is not None else v)
+
+    def ex_ListComp(self, st, e):
+        # [f(x) for x in xs]: the same accumulating loop as list(f(x) for x in xs)
+        for r in self.lib.comprehension(self, st, "list", e, e):
+            yield r
+
     def assign(self, st, target, v):
         """returns list of (state, outcome)"""
         if isinstance(target, ast.Name):
